@@ -16,22 +16,23 @@ import (
 
 // CEnv evaluates contract expressions over a symbolic state.
 type CEnv struct {
-	lastLocalAddr *Addr // address of the local variable last resolved by lookupLocal (nil if it is a register)
-	ex         *Exec
-	fr         *Frame
-	st         *State
-	old        *State
-	vars       map[string]Val
-	over       map[ssa.Value]Val
-	atBlock    *ssa.BasicBlock
-	atEnd      bool
-	pkg        *types.Package
-	pc         *PkgContracts
-	cl         *Clause
-	depth      int
-	boundNames map[string]bool
-	entryVals  bool
-	loop       *loopInfo // set while evaluating a loop assertion: head(e) refers to the loop-head values
+	atInstr       ssa.Instruction // evaluation point inside atBlock: just before this instruction (cut clauses)
+	lastLocalAddr *Addr           // address of the local variable last resolved by lookupLocal (nil if it is a register)
+	ex            *Exec
+	fr            *Frame
+	st            *State
+	old           *State
+	vars          map[string]Val
+	over          map[ssa.Value]Val
+	atBlock       *ssa.BasicBlock
+	atEnd         bool
+	pkg           *types.Package
+	pc            *PkgContracts
+	cl            *Clause
+	depth         int
+	boundNames    map[string]bool
+	entryVals     bool
+	loop          *loopInfo // set while evaluating a loop assertion: head(e) refers to the loop-head values
 }
 
 func (ex *Exec) envFor(fr *Frame, st, old *State, over map[ssa.Value]Val) *CEnv {
@@ -511,6 +512,26 @@ func (e *CEnv) lookupLocal(name string) (Val, bool) {
 	switch {
 	case e.atBlock != nil && e.atEnd:
 		ok = atEnd(e.atBlock, 0)
+	case e.atBlock != nil && e.atInstr != nil:
+		idx := -1
+		for i, in := range e.atBlock.Instrs {
+			if in == e.atInstr {
+				idx = i
+			}
+		}
+		for i := idx - 1; i >= 0 && !ok; i-- {
+			if dr, isDR := e.atBlock.Instrs[i].(*ssa.DebugRef); isDR {
+				if obj := dr.Object(); obj != nil && obj.Name() == name {
+					if vv, isVar := obj.(*types.Var); isVar && !vv.IsField() {
+						found, isAddr = dr.X, dr.IsAddr
+						ok = true
+					}
+				}
+			}
+		}
+		if !ok {
+			ok = atStart(e.atBlock, 0)
+		}
 	case e.atBlock != nil:
 		ok = atStart(e.atBlock, 0)
 	default:
@@ -895,6 +916,14 @@ func (e *CEnv) call(n *ECall) Val {
 				was = c.Store(was, v.Tm, c.Select(cur, v.Tm))
 			}
 			return Val{T: tBool, Tm: c.Eq(cur, was)}
+		case "trow": // trow(), tcol(): the terminal's cursor (1-based) after the bytes written so far
+			return Val{T: tInt, Tm: e.ex.heapGet(e.st, e.ex.trowKey())}
+		case "tcol":
+			return Val{T: tInt, Tm: e.ex.heapGet(e.st, e.ex.tcolKey())}
+		case "textw": // textw(s): the number of columns the terminal advances when it prints the text s
+			v := e.eval(n.Args[0])
+			c.DeclareFun("uf_textw", []smt.Sort{v.Tm.Sort}, smt.Int)
+			return Val{T: tInt, Tm: c.App("uf_textw", smt.Int, v.Tm)}
 		case "pen": // pen(): the rendition and hyperlink a terminal has after the tokens emitted so far
 			k := e.ex.penKey()
 			return Val{T: e.ex.styleType(), Tm: e.ex.heapGet(e.st, k)}
@@ -940,6 +969,13 @@ func (e *CEnv) call(n *ECall) Val {
 		case "boxed": // boxed(x): the interface value holding x
 			v := e.eval(n.Args[0])
 			return Val{T: types.NewInterfaceType(nil, nil), Tm: e.ex.box(v, e.st)}
+		case "oldat": // oldat(a, i): element i (evaluated now) of the slice a as it was on entry (header and contents of then)
+			so := e.sub()
+			so.st = e.old
+			so.entryVals = true
+			base := so.eval(n.Args[0])
+			idx := e.eval(n.Args[1])
+			return so.index(base, idx)
 		case "backing": // reference of a slice's backing array
 			v := e.eval(n.Args[0])
 			arr, _, _, _ := e.ex.sliceParts(v.Tm)
